@@ -185,7 +185,9 @@ def rules(rep, facts):
     # the iterators the walk relies on yield exactly the non-placeholder entries
     from .rules_c16 import r2_placeholders
     r2_placeholders(rep, facts, rid='C20/R5', rid3='C20/R5b')
-    rep.assumptions.append('iter()/iter_mut() of Table, InlineTable (TableLike), Array and ArrayOfTables yield every non-placeholder entry in order (C16/R2 decides the filtering; Vec / IndexMap iteration order is trusted)')
+    from .rules_c16 import r2c_iteration_tables
+    r2c_iteration_tables(rep, facts, rid='C20/R5c')
+    rep.assumptions.append('iter()/iter_mut() of Table, InlineTable (TableLike), Array and ArrayOfTables yield every non-placeholder entry in order (C20/R5, R5c decide what they yield on storages with placeholders; Vec / IndexMap iteration order is trusted)')
 
 
 def run(tier):
